@@ -55,6 +55,8 @@ func (s *Session) GetCreatedAt() time.Time {
 
 // GetLastActivity returns the last activity time
 func (s *Session) GetLastActivity() time.Time {
+	s.mu.RLock()
+	defer s.mu.RUnlock()
 	return s.LastActivity
 }
 
